@@ -96,8 +96,8 @@ def check_outcome(ctx, ref, out, witness, config):
     if d:
         ctx.violation("data-differs:%s" % config, witness, "at %r outcome=%r model=%r" % (list(d[0]), d[1], d[2]))
         return False
-    want = sorted([p for p, _k in errors], key=repr)
-    if want != out[2]:
+    want = refexec.drop_under_aborted(sorted([p for p, _k in errors], key=repr), _ex)
+    if want != refexec.drop_under_aborted(out[2], _ex):
         ctx.violation("error-paths-differ:%s" % config, witness, "outcome=%r model=%r" % (out[2][:5], want[:5]))
         return False
     return True
